@@ -124,7 +124,17 @@ def shrink(case):
     if t[0] not in ("D", "S"):
         return
     parts = t[-1].split("+")
-    # drop one token (a head, or a head+body pair)
+    # first large blocks (halves, quarters, eighths), then single tokens / head+body pairs
+    n = len(parts)
+    for div in (2, 4, 8):
+        if n >= 2 * div:
+            step = n // div
+            for j in range(0, n, step):
+                rest = parts[:j] + parts[j + step:]
+                if rest:
+                    yield " ".join(t[:-1] + ["+".join(rest)])
+    if n > 120:
+        return
     for j in range(len(parts)):
         for k in (2, 1):
             rest = parts[:j] + parts[j + k:]
